@@ -1,4 +1,6 @@
 """Concrete cross-check / replay for C11: results for different worker counts (source/frequency dependent grids)."""
+import os
+
 import numpy as np
 
 
@@ -63,4 +65,49 @@ def check(tier='quick', seed=0):
                             how='contracts.c11_concrete.check: gridding=dict with three different grids (small, large, medium), 1 source x 3 frequencies')
     if not np.array_equal(ref[0], ref[4], equal_nan=True):
         return dict(reproduced=True, cases=cases, clause='repeating the computation changes the synthetic data')
+    r = reused_directory(survey, model, grids, ref, [1] if tier == 'quick' else [1, 3])
+    cases += r.pop('cases')
+    if r['reproduced']:
+        return dict(r, cases=cases)
+    return dict(reproduced=False, cases=cases)
+
+
+def reused_directory(survey, model, grids, ref, worker_counts):
+    """file-based execution in a scratch directory that an earlier simulation (same survey, same grids, ANOTHER model) has used before
+    -- e.g. the previous run of the same script or the previous step of an inversion: the results must be those of the sequential
+    in-memory run of the current model (`ref`); what the directory holds is not an input of the computation."""
+    import shutil
+    import tempfile
+    import emg3d
+    cases = 0
+    earlier = emg3d.Model(model.grid, np.asarray(model.property_x)[::-1, :, ::-1] * 1.5)        # another model on the same grid
+    for workers in worker_counts:
+        cases += 1
+        td = tempfile.mkdtemp(prefix='c11.reused.')
+        try:
+            sim0 = emg3d.Simulation(survey.copy(), earlier, gridding='dict', gridding_opts=grids, max_workers=1, receiver_interpolation='linear',
+                                    solver_opts=dict(tol=1e-5, tol_gradient=1e-3, maxit=20, verb=0), tqdm_opts=dict(disable=True), verb=-1, file_dir=td)
+            sim0.compute()
+            _ = sim0.gradient
+            left = sorted(os.listdir(td))
+            got = run(survey, model, grids, workers, td)
+        except Exception as e:
+            return dict(reproduced=True, cases=cases, clause='computation in a re-used scratch directory raised', max_workers=workers, file_based=True,
+                        exception=f'{type(e).__name__}: {e}')
+        finally:
+            shutil.rmtree(td, ignore_errors=True)
+        names = ('synthetic data', 'fields', 'misfit', 'gradient', 'synthetic data after repeating the computation')
+        for nm, a, b in zip(names, ref, got):
+            if isinstance(a, dict):
+                same = all(a[k].shape == b[k].shape and np.array_equal(a[k], b[k]) for k in a)
+                dev = max(float(np.max(np.abs(a[k] - b[k]))) for k in a) if all(a[k].shape == b[k].shape for k in a) else None
+            else:
+                same = np.shape(a) == np.shape(b) and np.array_equal(a, b, equal_nan=True)
+                dev = float(np.nanmax(np.abs(np.asarray(a) - np.asarray(b)))) if np.shape(a) == np.shape(b) else None
+            if not same:
+                return dict(reproduced=True, cases=cases, max_workers=workers, file_based=True, max_abs_deviation=dev,
+                            clause=f'{nm} of a file-based run in a re-used scratch directory differ from the sequential in-memory run',
+                            directory_held_before=left,
+                            how='contracts.c11_concrete.reused_directory: Simulation(earlier model, file_dir=d).compute(); .gradient; then the run of the '
+                                'current model with file_dir=d; reference: max_workers=1 in memory')
     return dict(reproduced=False, cases=cases)
